@@ -15,7 +15,7 @@ def ex1c(model):
     r = RuleResult('EX1c', 'every extracted flow that is not empty is output: the loop of Parser.parse '
                    'that appends the flows skips a flow only if it is empty', floor=1)
     p = model.func('parser.Parser.parse')
-    loop = [s for s in T.body_with_tail(model, p) if isinstance(s, ast.For) and 'extracted' in unparse(s.iter)]
+    loop = [s for s in T.body_with_tail(model.inl(), model.inl().func('parser.Parser.parse')) if isinstance(s, ast.For) and 'extracted' in unparse(s.iter)]
     if not loop or not isinstance(loop[0].target, ast.Name):
         raise AnalysisError('anchor vanished: loop over the extracted flows in Parser.parse')
     lp = loop[0]
